@@ -143,11 +143,11 @@ drain_listener(int k) { /* accept and close what the task connected, so the queu
 
 /* ---- case description ---- */
 #define TIMEOUT_MS 3600000ull
-enum { H_FIRE = 1, H_CONN, H_BURST, H_SRVCLOSE, H_DATA, H_CLOSE, H_HALF };
+enum { H_FIRE = 1, H_CONN, H_BURST, H_SRVCLOSE, H_DATA, H_CLOSE, H_HALF, H_SRVDATA };
 typedef struct hstep_s { uint8_t op; uint8_t k; } hstep_t;
 #define MAXH 16
-enum { M_ACCEPT = 0, M_CONNECT, M_CONNECT_EX, M_NOTIFY, M_N };
-static const char *mode_name[M_N] = { "accept_task", "connect_task", "connect_ex_task", "notify_task" };
+enum { M_ACCEPT = 0, M_CONNECT, M_CONNECT_EX, M_NOTIFY, M_CONNRECV, M_N };
+static const char *mode_name[M_N] = { "accept_task", "connect_task", "connect_ex_task", "notify_task", "connect_then_recv_task" };
 static struct {
 	int	mode;
 	int	timeout;
@@ -178,6 +178,8 @@ static int conn_fd = -1, conn_cb_error, fired_before_cb;
 static tp_task_conn_prms_t prms;
 static struct sockaddr_storage prm_addrs[MAXA];
 static int final_seen, final_error, stopped_by_cb, att_at_final;
+/* connect, then the same task receives (handler switched from inside the connect callback) */
+static io_buf_t rbuf; static uint8_t rmem[32]; static int srv_fd = -1, srv_sent, r_reported, r_eof_cb, r_done;
 /* notify */
 static int sk[2] = { -1, -1 }, peer_open, bytes_sent, bytes_read, n_eof_cb, eof_armed;
 
@@ -192,7 +194,7 @@ cfail(const char *clause, const char *fmt, ...) {
 static void
 case_desc(char *b, size_t n) {
 	int i; size_t o;
-	static const char *opn[] = { "?", "fire", "conn", "burst", "srvclose", "data", "close", "halfclose" };
+	static const char *opn[] = { "?", "fire", "conn", "burst", "srvclose", "data", "close", "halfclose", "srvdata" };
 	o = (size_t)snprintf(b, n, "%s tmo=%d policy=%d", mode_name[C.mode], C.timeout, C.policy);
 	if (M_CONNECT == C.mode) o += (size_t)snprintf(b + o, n - o, " addr=%c nosettle=%d", kind_ch[C.kind], C.nosettle);
 	if (M_CONNECT_EX == C.mode) {
@@ -245,6 +247,41 @@ connect_cb(tp_task_p tptask, int error, void *udata) {
 	if (ncb > 1) { cfail("reported-twice", "the connect result is reported a second time (error %d, first %d)", error, conn_cb_error); return (0); }
 	conn_cb_error = error;
 	fired_before_cb = fires_armed;
+	return (0);
+}
+
+static int
+connrecv_recv_cb(tp_task_p tptask, int error, io_buf_p b, uint32_t eof, size_t transfered_size, void *udata) {
+	(void)udata;
+	ncb ++;
+	if (task_dead) { cfail("callback-after-stop", "receive callback after tp_task_stop()"); return (TP_TASK_CB_NONE); }
+	if (tptask != task || b != &rbuf) { cfail("wrong-task-args", "the receive callback of the switched task got task %p buffer %p (error %d)", (void *)tptask, (void *)b, error); tp_task_stop(task); task_dead = 1; return (TP_TASK_CB_NONE); }
+	r_reported += (int)transfered_size;
+	if (r_reported != (int)rbuf.used) cfail("transferred-count", "sum of transferred sizes %d, buffer holds %zu", r_reported, rbuf.used);
+	if (r_reported > srv_sent) cfail("bytes-invented", "%d bytes reported, the server sent %d", r_reported, srv_sent);
+	if (ETIMEDOUT == error) {
+		n_timeout_cb ++;
+		if (n_timeout_cb > fires_armed) cfail("spurious-timeout", "ETIMEDOUT %d times, timer expired %d times while armed", n_timeout_cb, fires_armed);
+		return (TP_TASK_CB_CONTINUE);
+	}
+	if (0 != error) { cfail("unexpected-error", "error %d", error); }
+	if (0 != eof) r_eof_cb ++;
+	if (0 != eof || 0 != error || 0 == rbuf.transfer_size) { tp_task_stop(task); task_dead = 1; r_done = 1; return (TP_TASK_CB_NONE); }
+	return (TP_TASK_CB_CONTINUE);
+}
+
+static int
+connrecv_connect_cb(tp_task_p tptask, int error, void *udata) {
+	(void)udata;
+	ncb ++;
+	if (tptask != task) cfail("wrong-task-args", "another task");
+	if (0 != error) { cfail("unexpected-error", "connect to a listening address reported %d", error); return (0); }
+	/* the documented "connect and receive" use: same task, other handler */
+	memset(rmem, 0xEE, sizeof(rmem)); memset(&rbuf, 0, sizeof(rbuf));
+	rbuf.data = rmem; rbuf.size = 16; rbuf.used = 0; rbuf.offset = 0; rbuf.transfer_size = 16;
+	tp_task_tp_cb_func_set(task, tp_task_sr_handler);
+	if (0 != tp_task_start(task, TP_EV_READ, 0, C.timeout ? TIMEOUT_MS : 0, 0, &rbuf, connrecv_recv_cb))
+		cfail("start-refused", "tp_task_start of the switched task failed");
 	return (0);
 }
 
@@ -356,7 +393,20 @@ apply(const hstep_t *s) {
 	case H_CONN: one_client(); break;
 	case H_BURST: one_client(); one_client(); break;
 	case H_SRVCLOSE: /* the server side accepts what is queued and closes it */
+		if (M_CONNRECV == C.mode) {
+			if (srv_fd < 0) srv_fd = accept4(lsn[K_U], NULL, NULL, SOCK_NONBLOCK);
+			if (srv_fd >= 0) { __real_close(srv_fd); srv_fd = -2; }
+			break;
+		}
 		drain_listener(K_U);
+		break;
+	case H_SRVDATA: /* the server side accepts the connection (once) and sends k bytes */
+		if (-1 == srv_fd) srv_fd = accept4(lsn[K_U], NULL, NULL, SOCK_NONBLOCK);
+		if (srv_fd >= 0) {
+			memset(tmp, 0x5a, sizeof(tmp));
+			c = (int)send(srv_fd, tmp, s->k, MSG_DONTWAIT | MSG_NOSIGNAL);
+			if (c > 0) srv_sent += c;
+		}
 		break;
 	case H_DATA:
 		if (!peer_open) break;
@@ -423,6 +473,7 @@ run_case(void) {
 	ncli = n_accepted = 0; natt = 0; att_fd = -1; att_polled = 0; report_fail_on = 0; conn_fd = -1; conn_cb_error = -12345; fired_before_cb = 0;
 	final_seen = final_error = n_fail_reports = stopped_by_cb = att_at_final = 0;
 	bytes_sent = bytes_read = n_eof_cb = eof_armed = 0; peer_open = 0; sk[0] = sk[1] = -1;
+	srv_fd = -1; srv_sent = r_reported = r_eof_cb = r_done = 0;
 	drain_listener(K_U);
 
 	switch (C.mode) {
@@ -449,6 +500,14 @@ run_case(void) {
 		rc = tp_task_connect_ex_create(t0, (C.report_fail ? TP_TASK_F_CB_AFTER_EVERY_READ : 0) | TP_TASK_F_CLOSE_ON_DESTROY,
 		    C.timeout ? TIMEOUT_MS : 0, &prms, connect_ex_cb, NULL, &task);
 		if (-1 == rc) { rc = 0; task = NULL; final_seen = 1; final_error = -1; }	/* nothing could be scheduled: reported by the return value */
+		break;
+	case M_CONNRECV:
+		conn_fd = socket(AF_INET, SOCK_STREAM | SOCK_NONBLOCK, 0);
+		harness_connect = 1;
+		connect(conn_fd, (struct sockaddr *)&addr_of[K_U], sizeof(struct sockaddr_in));
+		harness_connect = 0;
+		p.fd = conn_fd; p.events = POLLOUT; poll(&p, 1, 10000);
+		rc = tp_task_connect_create(t0, (uintptr_t)conn_fd, 0, C.timeout ? TIMEOUT_MS : 0, connrecv_connect_cb, NULL, &task);
 		break;
 	case M_NOTIFY:
 		if (0 != socketpair(AF_UNIX, SOCK_STREAM | SOCK_NONBLOCK, 0, sk)) { vh_fail("harness", "socketpair"); return; }
@@ -497,6 +556,14 @@ run_case(void) {
 				cfail("task-stalled", "no final report, no timer armed, no connection in progress after %d attempts", natt);
 		}
 		break;
+	case M_CONNRECV:
+		if (!task_dead && (int)rbuf.used != ((srv_sent < 16) ? srv_sent : 16))
+			cfail("bytes-not-moved", "the server sent %d bytes, the armed task moved %zu", srv_sent, rbuf.used);
+		if (n_timeout_cb != fires_armed)
+			cfail("timeout-count", "timer expired %d time(s) while armed, ETIMEDOUT reported %d time(s)", fires_armed, n_timeout_cb);
+		if (-2 == srv_fd && !task_dead && 0 == r_eof_cb)
+			cfail("eof-lost", "the server closed, end of stream never reported");
+		break;
 	case M_NOTIFY:
 		if (!task_dead && bytes_read != bytes_sent)
 			cfail("data-not-notified", "%d bytes sent, the callback was shown %d, task still armed", bytes_sent, bytes_read);
@@ -511,6 +578,7 @@ run_case(void) {
 	tp_destroy(tp); tp = NULL;
 	for (i = 0; i < ncli; i ++) __real_close(cli[i]);
 	if (conn_fd >= 0) __real_close(conn_fd);
+	if (srv_fd >= 0) __real_close(srv_fd);
 	if (sk[0] >= 0) __real_close(sk[0]);
 	if (sk[1] >= 0) __real_close(sk[1]);
 	drain_listener(K_U);
@@ -594,6 +662,11 @@ main(int argc, char **argv) {
 	C.mode = M_NOTIFY;
 	for (C.timeout = 0; C.timeout < 2; C.timeout ++) for (C.policy = 0; C.policy <= 2; C.policy ++) {
 		C.nh = 0; gen_hist(not_ops, not_ks, 5, 0, vh_thorough ? 6 : 5);
+	}
+	{
+		static const uint8_t cr_ops[4] = { H_SRVDATA, H_SRVDATA, H_FIRE, H_SRVCLOSE }, cr_ks[4] = { 1, 5, 0, 0 };
+		C.mode = M_CONNRECV; C.policy = 0;
+		for (C.timeout = 0; C.timeout < 2; C.timeout ++) { C.nh = 0; gen_hist(cr_ops, cr_ks, 4, 0, vh_thorough ? 6 : 5); }
 	}
 	C.mode = M_CONNECT_EX; C.policy = 0;
 	gen_connect_ex();
